@@ -43,7 +43,7 @@ PatternOf(ent, tr) == {IF tr THEN <<ent[t][2], ent[t][1]>> ELSE <<ent[t][1], ent
 (* perm_c, perm_r, info, L, U.  F is the matrix that was factored, as       *)
 (* (row, col) -> value (m x n), or <<>> when its values are not exact.      *)
 (***************************************************************************)
-FactorVerdict(ev, F, pat, m, n, u, uok, reuse, ilu) ==
+FactorVerdict2(ev, F, pat, m, n, u, uok, reuse, ilu, wfilu) ==
   LET ty == ev.ty
       cplx == IsCplx(ty)
       info == ev.info
@@ -51,7 +51,7 @@ FactorVerdict(ev, F, pat, m, n, u, uok, reuse, ilu) ==
       pcok == IsPerm(ev.perm_c, n)
       prok == IsPerm(ev.perm_r, m)
       \* C03 speaks about successful factorizations; after a singular return only the leading block is meaningful
-      wf == IF info = 0 /\ Has(ev, "L") /\ Has(ev, "U") THEN WellFormed(ev.L, ev.U, m, n, ilu, LAMBDA t : TokIsZero(t, cplx))
+      wf == IF info = 0 /\ Has(ev, "L") /\ Has(ev, "U") THEN WellFormed(ev.L, ev.U, m, n, wfilu, LAMBDA t : TokIsZero(t, cplx))
             ELSE IF info = 0 THEN "C03.missing" ELSE "ok"
       \* what the numeric clauses need from the storage of a singular return: the shapes only
       shapes == Has(ev, "L") /\ Has(ev, "U") /\ Has(ev.L, "rowind") /\ Has(ev.U, "rowind")
@@ -108,6 +108,7 @@ FactorVerdict(ev, F, pat, m, n, u, uok, reuse, ilu) ==
         \cup (IF numeric /\ cols > 0 /\ lvalsok /\ ~lmis /\ ~umis THEN {"C02.LU_values_exact"} ELSE {})
         \cup (IF info > n THEN {"mem.info_gt_n"} ELSE {})
   IN [bad |-> bad, arb |-> arb, cov |-> cov, d2 |-> numeric /\ info = 0 /\ r.done = n /\ r.st.d2]
+FactorVerdict(ev, F, pat, m, n, u, uok, reuse, ilu) == FactorVerdict2(ev, F, pat, m, n, u, uok, reuse, ilu, ilu)
 
 (***************************************************************************)
 (* op(A) X = B exactly (C01 / C05) on the exact domain: residual of the    *)
@@ -246,6 +247,52 @@ RefineNext(rf, ev) ==
   ELSE [j |-> -1, count |-> 0, want |-> FALSE]
 IsMemEvent(ev) == ev.e \in {"MemSetup", "UMalloc", "UFree", "ExpandBegin", "Expand", "Xpand", "InitExpands", "InitRetry", "WorkInit", "InitReturn", "WorkFree", "Col", "FactEnd"}
 
+\* helpers shared by the kernel and ILU verdicts
+UpFlag(f) == CASE f \in {"L", "l"} -> "L" [] f \in {"U", "u"} -> "U" [] f \in {"N", "n"} -> "N" [] f \in {"T", "t"} -> "T" [] f \in {"C", "c"} -> "C" [] OTHER -> "?"
+SmallTokK(t, cplx, k) == LET ok1(p) == TokOK(p) /\ LET v == Dy(p) IN Abs(v[1]) <= k /\ v[2] <= k IN IF cplx THEN ok1(t[1]) /\ ok1(t[2]) ELSE ok1(t)
+VecOf(seq, n, cplx) == [i \in Idx(n) |-> Val(seq[i + 1], cplx)]
+FactorsSmall(ev, cplx, k) == (\A q \in 1..Len(ev.L.nzval) : SmallTokK(ev.L.nzval[q], cplx, k)) /\ (\A q \in 1..Len(ev.U.nzval) : SmallTokK(ev.U.nzval[q], cplx, k))
+
+(***************************************************************************)
+(* ?gsisx (C15): the incomplete factorization never breaks down, its        *)
+(* output is well-formed, and X is exactly the preconditioner solve defined *)
+(* by the returned factors.  (With dropping disabled and no pivot replaced  *)
+(* the complete-LU clauses apply as well: see GssvxVerdict.)                 *)
+(***************************************************************************)
+FiniteTok(t, cplx) == IF cplx THEN (Len(t[1]) = 2 \/ t[1][5] < 80000) /\ (Len(t[2]) = 2 \/ t[2][5] < 80000) ELSE (Len(t) = 2 \/ t[5] < 80000)
+IluVerdict(ev) ==
+  LET n == ev.n  cplx == IsCplx(ev.ty)  info == ev.info
+      query == Has(ev, "work") /\ ev.work.lwork = -1
+      done == info >= 0 /\ info <= n + 1 /\ ~query /\ ev.opts.Fact # 3
+      hasLU == Has(ev, "L") /\ Has(ev, "U") /\ Has(ev.L, "rowind") /\ Has(ev.U, "rowind")
+      wf == IF done /\ hasLU THEN WellFormed(ev.L, ev.U, n, n, TRUE, LAMBDA t : TokIsZero(t, cplx)) ELSE IF done THEN "C03.missing" ELSE "ok"
+      permsok == IsPerm(ev.perm_c, n) /\ IsPerm(ev.perm_r, n)
+      \* U's diagonal lives in the supernodal storage: entry (j, j) of column j
+      diagTok(j) == LET e == SnodeEntry(ev.L, j, j) IN IF e[1] THEN At(ev.L.nzval, e[2]) ELSE (IF cplx THEN <<<<0, 0>>, <<0, 0>>>> ELSE <<0, 0>>)
+      diagbad == wf = "ok" /\ \E j \in 0..(n - 1) : TokIsZero(diagTok(j), cplx) \/ ~FiniteTok(diagTok(j), cplx)
+      \* X = the solve with the returned factors (exact when nothing was scaled and the factors lie in the exact domain)
+      tr == ev.fmt = "NR"
+      effN == IF tr THEN ev.opts.Trans # 0 ELSE ev.opts.Trans = 0
+      \* operation the driver applies to the factored matrix (A, or A' for row storage)
+      opn == IF effN THEN "N" ELSE IF cplx /\ ~tr /\ ev.opts.Trans = 2 THEN "C" ELSE "T"
+      solved == done /\ Has(ev, "B0") /\ ev.nrhs > 0
+      DL == DenseL(ev.L, n, n, LAMBDA t : Val(t, cplx), CZero, COne)
+      DU == DenseU(ev.L, ev.U, n, LAMBDA t : Val(t, cplx), CZero)
+      exact == solved /\ wf = "ok" /\ permsok /\ ev.equed = "N" /\ FactorsSmall(ev, cplx, 16) /\ (\A k \in Idx(n) : CIsPow2(DU[<<k, k>>]))
+               /\ \A k \in 1..ev.nrhs : \A i \in 1..n : SmallTokK(ev.B0[k][i], cplx, 16)
+      pr == [i \in Idx(n) |-> ev.perm_r[i + 1]]
+      pc == [i \in Idx(n) |-> ev.perm_c[i + 1]]
+      colOK(k) == (\A i \in 1..n : ValOK(ev.X1[k][i], cplx)) /\ VecOf(ev.X1[k], n, cplx) = Gstrs(opn, DL, DU, pr, pc, VecOf(ev.B0[k], n, cplx), n)
+      bad == (IF ~query /\ ev.opts.Fact # 3 /\ info >= 0 /\ info <= n + 1 /\ ~permsok THEN {"C15.permutation_not_a_bijection"} ELSE {})
+             \cup (IF wf # "ok" THEN {"C15." \o wf} ELSE {})
+             \cup (IF done /\ hasLU /\ diagbad THEN {"C15.U_diagonal_zero_or_not_finite"} ELSE {})
+             \cup (IF ev.Astruct_same # 1 THEN {"C15.row_indices_not_restored"} ELSE {})
+             \cup (IF exact /\ (\E k \in 1..ev.nrhs : ~colOK(k)) THEN {"C15.X_is_not_the_preconditioner_solve"} ELSE {})
+             \cup (IF solved /\ ev.X_same = 1 /\ ev.nrhs > 0 /\ n > 0 THEN {"C15.X_not_computed"} ELSE {})
+  IN [bad |-> bad, arb |-> (IF solved /\ ~exact THEN {"C15.solve_numeric"} ELSE {}),
+      cov |-> (IF done THEN {"C15.completed", "C15.droprule_" \o ToString(ev.opts.DropRule), "C15.replaced_" \o (IF info = 0 \/ info = n + 1 THEN "0" ELSE "some")} ELSE {})
+              \cup (IF exact THEN {"C15.X_exact"} ELSE {})]
+
 (***************************************************************************)
 (* ?gssvx / ?gsisx (expert drivers): C05 (+ C02-C04 on the matrix that was  *)
 (* factored, C06 reuse clauses, C07/C08 storage clauses).                    *)
@@ -297,7 +344,7 @@ GssvxVerdict(ev, sc) ==
                  ELSE (a0exact /\ rcok) => \A t \in 1..Len(ev.A0) : ev.A1v[t] = ShiftValTok(ev.A0[t][3], eR(rowOf(t)) + eC(colOf(t)), cplx)
       ascaledChecked == ~needRC \/ (a0exact /\ rcok)
       \* --- B after the call
-      solved == (info = 0 \/ info = n + 1) /\ ~query /\ Has(ev, "B0") /\ ev.nrhs > 0
+      solved == (info = 0 \/ info = n + 1 \/ (ev.fn = "gsisx" /\ info > 0 /\ info <= n)) /\ ~query /\ Has(ev, "B0") /\ ev.nrhs > 0
       bexp(i) == IF notranEff /\ RowEqu(q) THEN eR(i) ELSE IF ~notranEff /\ ColEqu(q) THEN eC(i) ELSE 0
       bneeds == (notranEff /\ RowEqu(q)) \/ (~notranEff /\ ColEqu(q))
       bok == \A k \in 1..ev.nrhs : \A i \in 1..n : ExactTok(ev.B0[k][i], cplx)
@@ -308,7 +355,10 @@ GssvxVerdict(ev, sc) ==
       Fent == [t \in 1..Len(ev.A0) |-> <<ev.A0[t][1], ev.A0[t][2], ev.A1v[t]>>]
       F == IF a1ok THEN DenseOf(Fent, n, n, cplx, tr) ELSE <<>>
       factored == fact # 3 /\ ~query /\ info >= 0
-      fv == IF factored /\ ~Light THEN FactorVerdict(ev, F, PatternOf(ev.A0, tr), n, n, Dy(UTok(ev)), UOK(ev), fact = 2, ev.fn = "gsisx")
+      isilu == ev.fn = "gsisx"
+      iluExact == isilu /\ ev.opts.DropRule = 0 /\ info = 0       \* dropping disabled, no pivot replaced
+      iv == IF isilu THEN IluVerdict(ev) ELSE [bad |-> {}, arb |-> {}, cov |-> {}]
+      fv == IF factored /\ ~Light /\ (~isilu \/ iluExact) THEN FactorVerdict2(ev, F, PatternOf(ev.A0, tr), n, n, Dy(UTok(ev)), UOK(ev), fact = 2 \/ isilu, FALSE, isilu)
             ELSE [bad |-> {}, arb |-> {}, cov |-> {}, d2 |-> FALSE]
       \* --- solution: op(A0) X = B0 for the caller's original A and B
       opname == IF ev.opts.Trans = 0 THEN "N" ELSE IF ev.opts.Trans = 1 \/ ~cplx THEN "T" ELSE "C"
@@ -322,7 +372,7 @@ GssvxVerdict(ev, sc) ==
       opA == [ij \in Rows(n) \X Rows(n) |-> IF opname = "N" THEN A[ij] ELSE IF opname = "T" THEN A[<<ij[2], ij[1]>>] ELSE CConj(A[<<ij[2], ij[1]>>])]
       asmall == IF fact = 3 /\ needRC THEN unscOK /\ (\A t \in 1..Len(ev.A0) : ATokSmall(unscTok(t), cplx))
                 ELSE \A t \in 1..Len(ev.A0) : ATokSmall(ev.A0[t][3], cplx)
-      sv == IF solved /\ ev.fn = "gssvx" /\ ~Light THEN SolveVerdict(ev, opA, aok /\ asmall, n, ev.X1, cplx, "C05.residual")
+      sv == IF solved /\ (ev.fn = "gssvx" \/ iluExact) /\ ~Light THEN SolveVerdict(ev, opA, aok /\ asmall, n, ev.X1, cplx, "C05.residual")
             ELSE [arb |-> {}, cov |-> {}, nexact |-> 0, allexact |-> FALSE]
       condOn == ev.opts.Cond = 1 /\ ~query /\ Has(ev, "rcond_exp")
       epsExp == IF ty \in {"d", "z"} THEN -53 ELSE -24          \* dmach("E") = 2^-53, smach("E") = 2^-24
@@ -332,15 +382,15 @@ GssvxVerdict(ev, sc) ==
       \* --- storage clauses (C07 / C08)
       haswork == Has(ev, "work")
       digs == IF Has(ev, "L") /\ Has(ev.L, "dig") /\ Has(ev, "U") /\ Has(ev.U, "dig") THEN <<ev.L.dig, ev.L.digs, ev.U.dig, ev.U.digs, ev.perm_r, ev.perm_c, ev.L.nnz, ev.U.nnz>> ELSE <<>>
-      bad == fv.bad
+      bad == fv.bad \cup iv.bad
         \cup (IF ~EquedOK(q) THEN {"C05.equed_letter"} ELSE {})
         \cup (IF EquedOK(q) /\ ~query /\ info >= 0 /\ fact # 3 /\ ~ascaled THEN {"C05.A_scaled_as_equed"} ELSE {})
         \cup (IF EquedOK(q) /\ ~query /\ info >= 0 /\ ~bscaled THEN {"C05.B_scaled_as_documented"} ELSE {})
         \cup (IF fact = 0 /\ ev.opts.Equil = 0 /\ ~query /\ info >= 0 /\ q # "N" THEN {"C05.equed_without_equil"} ELSE {})
         \cup (IF ev.Astruct_same # 1 THEN {"C05.A_structure_modified"} ELSE {})
         \cup (IF Has(ev, "padB_same") /\ (ev.padB_same # 1 \/ ev.padX_same # 1) THEN {"C05.padding_written"} ELSE {})
-        \cup (IF info > 0 /\ info <= n /\ Has(ev, "X_same") /\ ev.X_same # 1 THEN {"C04.X_written_on_singular"} ELSE {})
-        \cup (IF info > 0 /\ info <= n /\ Has(ev, "B_same") /\ ev.B_same # 1 THEN {"C04.B_modified"} ELSE {})
+        \cup (IF ev.fn = "gssvx" /\ info > 0 /\ info <= n /\ Has(ev, "X_same") /\ ev.X_same # 1 THEN {"C04.X_written_on_singular"} ELSE {})
+        \cup (IF ev.fn = "gssvx" /\ info > 0 /\ info <= n /\ Has(ev, "B_same") /\ ev.B_same # 1 THEN {"C04.B_modified"} ELSE {})
         \cup (IF fact = 3 /\ info >= 0 /\ ~(ev.same.Lval = 1 /\ ev.same.Uval = 1 /\ ev.same.Lstr = 1 /\ ev.same.Ustr = 1 /\ ev.same.perm_c = 1 /\ ev.same.perm_r = 1)
               THEN {"C06.resolve_altered_factors"} ELSE {})
         \cup (IF fact \in {1, 2} /\ info >= 0 /\ ev.same.perm_c # 1 THEN {"C06.column_order_not_reused"} ELSE {})
@@ -392,7 +442,7 @@ GssvxVerdict(ev, sc) ==
         \cup (IF sc.memfail THEN {"C08.shortage_seen"} ELSE {})
         \cup (IF q # "N" THEN {"C05.equed_" \o q} ELSE {})
         \cup {"C06.fact_" \o (CASE fact = 0 -> "DOFACT" [] fact = 1 -> "SamePattern" [] fact = 2 -> "SameRowPerm" [] OTHER -> "FACTORED")}
-  IN [bad |-> bad, arb |-> fv.arb \cup sv.arb \cup numarb, cov |-> cov, digs |-> IF factored /\ info = 0 THEN digs ELSE <<>>, d2 |-> fv.d2]
+  IN [bad |-> bad, arb |-> fv.arb \cup sv.arb \cup numarb \cup iv.arb, cov |-> cov \cup iv.cov, digs |-> IF factored /\ info = 0 THEN digs ELSE <<>>, d2 |-> fv.d2]
 
 (***************************************************************************)
 (* ?gsequ + ?laqgs on the log domain DL (C11): every logged quantity is     *)
@@ -531,10 +581,6 @@ StructVerdict(ev) ==
 (* Kernels (C14): sp_?trsv, sp_?gemv, sp_?gemm, ?gstrs against SluSolve on  *)
 (* the dense abstraction of the recorded factors / matrix.                   *)
 (***************************************************************************)
-UpFlag(f) == CASE f \in {"L", "l"} -> "L" [] f \in {"U", "u"} -> "U" [] f \in {"N", "n"} -> "N" [] f \in {"T", "t"} -> "T" [] f \in {"C", "c"} -> "C" [] OTHER -> "?"
-SmallTokK(t, cplx, k) == LET ok1(p) == TokOK(p) /\ LET v == Dy(p) IN Abs(v[1]) <= k /\ v[2] <= k IN IF cplx THEN ok1(t[1]) /\ ok1(t[2]) ELSE ok1(t)
-VecOf(seq, n, cplx) == [i \in Idx(n) |-> Val(seq[i + 1], cplx)]
-FactorsSmall(ev, cplx, k) == (\A q \in 1..Len(ev.L.nzval) : SmallTokK(ev.L.nzval[q], cplx, k)) /\ (\A q \in 1..Len(ev.U.nzval) : SmallTokK(ev.U.nzval[q], cplx, k))
 TrsvVerdict(ev) ==
   LET n == ev.n  cplx == IsCplx(ev.ty)
       up == UpFlag(ev.uplo)  tr == UpFlag(ev.trans)  dg == UpFlag(ev.diag)
